@@ -3,7 +3,7 @@ import itertools
 import json
 import multiprocessing as mp
 
-from .. import e1, oracles
+from .. import e1, e3, oracles
 from ..asm import BASE, G, INST, SG, alphabet, asm, sbu
 from ..common import Report, ncpu
 from ..vocab import VOCAB
@@ -144,7 +144,7 @@ def check(tier):
     items = list(template_programs(tier))
     total = e1.Out()
     with mp.get_context("fork").Pool(ncpu()) as pool:
-        for o in pool.imap_unordered(_one, items, chunksize=128):
+        for o in pool.imap_unordered(e3._Guard(_one, PROP), items, chunksize=128):
             total.merge(o)
     for k, v in total.stats.items():
         rep.add(k, v)
